@@ -31,7 +31,7 @@ for n, lens, tier, cap in (("ascii_1", "0..=1", Q, 600), ("ascii_2", "2", Q, 900
                            ("edifact_3", "1..=3", Q, 600), ("edifact_5", "4..=5", Q, 600), ("edifact_7", "6..=7", Q, 600),
                            ("b256_3", "1..=3", Q, 600), ("b256_5", "4..=5", Q, 600)):
     m = n.split("_")[0]
-    reg("acc_" + n, "dec", ["C04", "C05"], tier=tier, cap=cap, qprops=["C04", "C05"] if n in ("ascii_1", "c40_2", "x12_3", "edifact_3", "b256_3") else ["C04"],
+    reg("acc_" + n, "dec", ["C04", "C05"], tier=tier, cap=cap, mem_gb=14 if m == "ascii" else 8, qprops=["C04", "C05"] if n in ("ascii_1", "c40_2", "x12_3", "edifact_3", "b256_3") else ["C04"],
         bounds="one %s run of %s arbitrary codewords (all 256 values each), run to the end of the stream; crate decoder vs independent ISO/IEC 16022 decoder: accepted by the reference => accepted with the same bytes, end index and next mode; never panics; makes progress" % (m, lens),
         encodes=[DEC + _dec_fn[m], DEC + "Reader", DEC + "decode_c40_tuple"] + ([DEC + "read_eci"] if m == "ascii" else []))
 for n in ("c40", "text"):
@@ -151,7 +151,7 @@ for n in ("5_11", "12_18", "20", "22", "24", "27", "28", "32", "34", "36", "38",
         bounds="degree(s) %s: one LFSR step from an ARBITRARY register state (k symbolic bytes) with an arbitrary data byte == (old*x + a*x^k) mod g coefficient-wise in shift-xor arithmetic (one inductive step => any data length)" % n.replace("_", "..")
         , encodes=["errorcode::ecc_block", "errorcode::generator"])
 for n in ("sq52", "sq64", "sq72", "sq80", "sq88", "sq96", "sq104", "sq120", "sq132", "sq144", "sq10", "r16x48"):
-    reg("rs_glue_" + n, "ec", ["C06", "C01"], cap=2400, mem_gb=8 if n in ("sq52", "sq10", "r16x48") else 16, stubbing=True, tier=Q if n in ("sq52", "sq10", "r16x48") else T, role="attempt" if n in ("sq104", "sq120", "sq132", "sq144") else "lemma",
+    reg("rs_glue_" + n, "ec", ["C06", "C01"], cap=2400, mem_gb=8 if n in ("sq10", "r16x48") else 16, stubbing=True, tier=Q if n in ("sq52", "sq10", "r16x48") else T, role="attempt" if n in ("sq104", "sq120", "sq132", "sq144") else "lemma",
         qprops=["C06", "C01"] if n == "sq10" else ["C06"],
         bounds="%s: data = fixed pattern with the first and last codeword of every block symbolic; ecc_block replaced by a recording stub (count, first, last, rotating xor): block q receives exactly the codewords q, q+B, q+2B, ... and its result is written to positions q, q+B, ..." % n,
         encodes=["errorcode::encode_error"])
